@@ -188,6 +188,7 @@ pub fn run_one(fam: &Family, verif_seed: u64, run_index: u64, choices: Choices, 
                 cfg.task_cancel = fam.cancel && c.pick(3) == 2;
                 cfg.non_oldest = c.pick(2) == 1;
                 cfg.poll_none_when_ready = c.pick(2) == 1;
+                cfg.cancelled_with_progress = c.pick(2) == 1;
                 if cfg.partial || cfg.peer_drop || cfg.immediate || cfg.task_cancel {
                     break;
                 }
